@@ -349,7 +349,10 @@ def extract_unit(u: Unit, rewrite_log: list) -> List[Piece]:
         else:
             a = find_unique(m, u.anchor, u.name, lo, hi)
             a = src.rfind("\n", 0, a) + 1
-        if u.block_end == "@for_end":
+        if u.block_end == "@fn_end":
+            # the block runs to the end of the enclosing function body
+            e = hi
+        elif u.block_end == "@for_end":
             # the block runs from the anchor statement through the end of the FIRST `for` loop that follows it
             fm = re.compile(r"(?<![A-Za-z0-9_])for\s").search(m, a)
             ob = m.find("{", fm.end())
